@@ -1020,7 +1020,10 @@ where
         job.job_controlled = true;
         job.state = result.into();
         job.name = job_name();
-        env.jobs.insert(job);
+        let index = env.jobs.insert(job);
+        // A job that has just been suspended becomes the current job (even
+        // when the current job is suspended, too).
+        _ = env.jobs.set_current_job(index);
 
         if env.is_interactive() {
             return Break(Divert::Interrupt(Some(exit_status)));
